@@ -892,7 +892,38 @@ def stride_of(term):
     return None
 
 
-def guarded_values(fa, operand):
+def _flowing_defs(fa, l, bb, pos):
+    """full definitions of local l whose value can flow to (bb, pos): the reaching definitions there,
+    closed under "this definition reads l itself" (`i += 1` brings in what reaches it)"""
+    seen, out = set(), []
+    work = [(bb, pos)]
+    while work:
+        b_, p_ = work.pop()
+        for d in fa.reaching_defs(l, b_, p_):
+            key = (d[1], d[2])
+            if key in seen:
+                continue
+            seen.add(key)
+            out.append(d)
+            reads = False
+            if d[0] == "assign":
+                for o in _rv_operands(d[4]):
+                    if _op_mentions(o, l):
+                        reads = True
+                if not reads:
+                    # through a temporary: `_t = AddWithOverflow(copy l, 1); l = move _t.0`
+                    for o in _rv_operands(d[4]):
+                        q = op_place(o)
+                        if q is not None and q["l"] != l:
+                            for d2 in fa.body.defs.get(q["l"], []):
+                                if d2[0] == "assign" and any(_op_mentions(o2, l) for o2 in _rv_operands(d2[4])):
+                                    reads = True
+            if reads:
+                work.append((d[1], d[2] if d[2] is not None else len(fa.blocks[d[1]].stmts)))
+    return out
+
+
+def guarded_values(fa, operand, at=None):
     """The alternative values an operand can hold, each with the block that assigns it:
     [(value term, defining block)].  Follows copies / references / field projections back to the
     local that is assigned on several paths (`let x = if c { a } else { b }`, a tuple built in each
@@ -911,6 +942,10 @@ def guarded_values(fa, operand):
             return [(t, None)]
         fields = [e["n"] for e in p["p"] if isinstance(e, dict) and "f" in e] + fields
         ds = [d for d in fa.body.defs.get(p["l"], []) if not d[3]["p"] and d[1] in fa.succ]
+        if at is not None and len(ds) > 1:
+            flowing = _flowing_defs(fa, p["l"], at[0], at[1])
+            if flowing:
+                ds = [d for d in ds if any(d[1] == f[1] and d[2] == f[2] for f in flowing)]
         if not ds:
             t = fa.origin_place({"l": p["l"], "p": []}, 0, 0)   # a parameter / captured variable
             for f in fields:
